@@ -38,22 +38,39 @@ Definition run_ctx (c : config) : dl :=
   then dmin (cfg_caller c) (Fin (cfg_connect_start c + cfg_dial_timeout c))
   else cfg_caller c.
 
+(* One table row = (direction, bounded, restart):
+   bounded: the call reaches conn.Send/Recv only under context.WithTimeout(ctx, timeout);
+   restart: the call sits in a loop that arms a FRESH timeout for every frame of peer input it
+   skips (the -404 loop of readUnencrypted before its repair), so the step lives until
+   timeout after the LAST skipped frame. *)
+Definition op := (Z * bool * bool)%type.
+Definition op_dir (o : op) : Z := fst (fst o).
+Definition op_bounded (o : op) : bool := snd (fst o).
+Definition op_restart (o : op) : bool := snd o.
+
+(* deadline of a single call started at [start] *)
 Definition op_deadline (ctx : dl) (timeout start : Z) (bounded : bool) : dl :=
   if bounded then dmin ctx (Fin (start + timeout)) else ctx.
 
-(* "the exchange fails no later than the exchange timeout after the step started" *)
-Definition step_bounded (c : config) (timeout start : Z) (op : Z * bool) : Prop :=
-  within (op_deadline (run_ctx c) timeout start (snd op)) (start + timeout).
+(* deadline of the whole STEP that starts at [start] when the peer delivers [n] frames the step
+   skips, [gap] apart (0 <= gap <= timeout: each arrives before the running timeout) *)
+Definition step_deadline (ctx : dl) (timeout start n gap : Z) (o : op) : dl :=
+  op_deadline ctx timeout (if op_restart o then start + n * gap else start) (op_bounded o).
 
-Definition all_ops_bounded (ops : list (Z * bool)) : bool := forallb (fun op => snd op) ops.
+(* "the exchange fails no later than the exchange timeout after the step started" *)
+Definition step_bounded (c : config) (timeout start n gap : Z) (o : op) : Prop :=
+  within (step_deadline (run_ctx c) timeout start n gap o) (start + timeout).
+
+Definition all_ops_bounded (ops : list op) : bool :=
+  forallb (fun o => op_bounded o && negb (op_restart o)) ops.
 
 (* n-th (1-based) operation of direction [dir] *)
-Fixpoint nth_dir (ops : list (Z * bool)) (dir : Z) (n : nat) : option (Z * bool) :=
+Fixpoint nth_dir (ops : list op) (dir : Z) (n : nat) : option op :=
   match ops with
   | [] => None
-  | op :: t => if fst op =? dir then match n with
+  | o :: t => if op_dir o =? dir then match n with
                                      | O => None
-                                     | S O => Some op
+                                     | S O => Some o
                                      | S k => nth_dir t dir k
                                      end
                else nth_dir t dir n
